@@ -107,6 +107,8 @@ def obligations(tier: str):
     for fxn, depths in (("f0", (1, 2, 3)), ("f1s", (1, 2) + ((3,) if T else ())), ("f3", (1, 2, 3)), ("f4", (2, 3))):
         for d in depths:
             add(f"grow_{fxn}_d{d}", fixture=fxn, creator="grow", max_depth=d)
+    for d in (2, 3, 4):
+        add(f"grow_f10_d{d}", fixture="f10", creator="grow", max_depth=d)
     for d in (2, 3):
         add(f"grow_f9_d{d}", fixture="f9", creator="grow", max_depth=d)
         add(f"pigrow_f9_d{d}", fixture="f9", creator="pi", max_depth=d)
